@@ -224,3 +224,17 @@ def raised_class_exprs(func_node, raise_node):
         if built and not other:
             return built
     return [e]
+
+
+def inert_stmt(b):
+    """A statement that computes nothing a caller can see: a docstring or a
+    call of a logger (`LOG.debug(...)`, `logging.info(...)`)."""
+    if isinstance(b, ast.Expr) and isinstance(b.value, ast.Constant):
+        return True
+    if isinstance(b, ast.Expr) and isinstance(b.value, ast.Call):
+        f = b.value.func
+        if isinstance(f, ast.Attribute) and isinstance(
+                f.value, ast.Name) and f.value.id in ('LOG', 'logging',
+                                                      'logger', '_LOG'):
+            return True
+    return False
